@@ -11,15 +11,19 @@ MCData == { D("h1", 32, "raw", "h1", 32, {"sha256"}), D("h2", 32, "raw", "h2", 3
             D("c3", 900, "raw", "c3", 900, {"x509"}),
             D("p1", 1006, "pem", "c1", 700, {"x509"}), D("p3", 1275, "pem", "c3", 900, {"x509"}),
             D("p1b", 1070, "pem", "c1", 700, {"x509"}), D("p3n", 1276, "pem", "c3", 900, {"x509"}),
+            D("e1", 1, "raw", "e1", 1, {"extern"}),      \* externally-managed list: one data byte per entry
             D("s1", 20, "raw", "s1", 20, {"sha1"}), D("u1", 40, "raw", "u1", 40, {"bogus"}) }
 (* reduced universe for the deepest exhaustive bound *)
-MCDataSmall == {x \in MCData : x.id \in {"h1", "h31", "c1", "c3", "p1", "s1", "u1"}}
+MCDataSmall == {x \in MCData : x.id \in {"h1", "h31", "c1", "c3", "p1", "s1", "u1", "e1"}}
 Ent(o, id, n) == [owner |-> o, data |-> id, len |-> n]
 Lst(t, size, es) == [type |-> t, listsize |-> 28 + Len(es) * size, hdrsize |-> 0, size |-> size, entries |-> es]
 MCPresets == [ dupA  |-> << Lst("sha256", 48, <<Ent("o1","h1",32), Ent("o1","h1",32), Ent("o2","h2",32)>>) >>,
                dupB  |-> << Lst("x509", 716, <<Ent("o1","c1",700), Ent("o2","c2",700), Ent("o1","c1",700)>>),
                             Lst("sha256", 48, <<Ent("o1","h1",32)>>) >>,
                cross |-> << Lst("sha256", 48, <<Ent("o1","h1",32), Ent("o2","h2",32)>>), Lst("sha256", 48, <<Ent("o1","h1",32)>>) >>,
+               \* two lists of the same type and entry size, each with an entry the other does not have (one list per certificate is what firmware writes)
+               twin  |-> << Lst("sha256", 48, <<Ent("o1","h1",32)>>), Lst("sha256", 48, <<Ent("o2","h2",32)>>),
+                            Lst("x509", 716, <<Ent("o1","c1",700)>>), Lst("x509", 716, <<Ent("o2","c2",700)>>), Lst("extern", 17, <<Ent("o1","e1",1)>>) >>,
                plain |-> << Lst("x509", 716, <<Ent("o1","c1",700)>>), Lst("x509", 916, <<Ent("o2","c3",900)>>),
                             Lst("sha256", 48, <<Ent("o2","h2",32)>>) >> ]
 ASSUME PrintT(ToJson([presets |-> MCPresets]))
